@@ -145,4 +145,3 @@ func runC03(args []string) error {
 	sum.CasesFiles = names
 	return sum.write(rf.Out, "c03")
 }
-
